@@ -270,6 +270,8 @@ def check(ctx: Ctx, col: Collector, tier: str) -> None:
             elif conv:
                 col.ok("C09.CLASS-MODE", mkey, repo.loc(GEN, None), f"{sorted(conv)}")
     col.extra["roles"] = {r: {l: sorted(map(str, p)) for l, p in s.items()} for r, s in sites.items()}
+    from .shared import share
+    share(ctx, col, "C17", {"C17.FILTER"}, "the same declarations are shown under both settings: the inherited-member filter compares Python names")
     col.assume("the string algorithm of the conversion (UpperCamel/lowerCamel for all identifiers) is a function over arbitrary strings and is not decided")
 
 
